@@ -295,6 +295,15 @@ class ModelCacheMixin:
             )
         )
 
+    def _get_complete_solutions(self, e):
+        """
+        The values of `e` in the cached models, or nothing if some cached model does not assign all variables of `e`
+        (the values such a model stands for are not listed, so an optimum over the cached values could be wrong).
+        """
+        if any(not e.variables.issubset(m.model) for m in self._models):
+            return ()
+        return self._get_solutions(e, allow_unconstrained=False)
+
     #
     # Cached functions
     #
@@ -354,7 +363,7 @@ class ModelCacheMixin:
         if len(extra_constraints) == 0 and (e.hash() in self._eval_exhausted or e.hash() in exhausted):
             # we set allow_unconstrained to False because we expect all returned values for e are returned by Z3,
             # instead of some arbitrarily assigned concrete values.
-            cached = self._get_solutions(e, allow_unconstrained=False)
+            cached = self._get_complete_solutions(e)
 
         if len(cached) > 0:
 
@@ -375,7 +384,7 @@ class ModelCacheMixin:
         cached = []
         exhausted = self._max_signed_exhausted if signed else self._max_exhausted
         if len(extra_constraints) == 0 and (e.hash() in self._eval_exhausted or e.hash() in exhausted):
-            cached = self._get_solutions(e, allow_unconstrained=False)
+            cached = self._get_complete_solutions(e)
 
         if len(cached) > 0:
 
